@@ -89,6 +89,8 @@ def direction2():
 def trans(dim=3, lo_exp=-6, hi_exp=6, zero=True):
     d = direction3() if dim == 3 else direction2()
     mags = [logmag(lo_exp, hi_exp), logmag(-1, 1)]
+    if hi_exp > 3:
+        mags.append(logmag(3, hi_exp))
     if zero:
         mags.append(st.just(0.0))
     return st.tuples(d, st.one_of(*mags)).map(lambda t: [x * t[1] for x in t[0]])
